@@ -350,13 +350,14 @@ pub struct Gen<'a, 'b> {
     pub widths: Vec<u32>,
     pub arr: Option<(u32, u32)>,
     pub wide: bool,
+    names_used: Vec<String>,
 }
 
 const NAMES: [&str; 10] = ["clk", "rst", "data_in", "count", "mem", "x$y", "top.u1.sig", "valid", "q", "n123"];
 
 impl<'a, 'b> Gen<'a, 'b> {
     pub fn new(t: &'a mut Tape<'b>, wide: bool) -> Self {
-        Gen { f: BtorFile::default(), t, next_id: 1, name_count: 0, widths: vec![], arr: None, wide }
+        Gen { f: BtorFile::default(), t, next_id: 1, name_count: 0, names_used: vec![], widths: vec![], arr: None, wide }
     }
 
     fn fresh_id(&mut self) -> u64 {
@@ -374,9 +375,24 @@ impl<'a, 'b> Gen<'a, 'b> {
 
     fn maybe_name(&mut self, p: u32) -> Option<String> {
         if self.t.chance(p) {
+            // labels need not be unique in btor2 (the reader makes them unique): sometimes repeat an
+            // earlier label, use an earlier label plus the `_<k>` suffix a uniquifier would hand out, or
+            // a name that looks like the reader's defaults for unnamed lines
+            if !self.names_used.is_empty() && self.t.chance(48) {
+                let prev = self.names_used[self.t.below(self.names_used.len() as u32) as usize].clone();
+                let name = match self.t.below(3) {
+                    0 => prev,
+                    1 => format!("{}_{}", prev, self.t.below(3)),
+                    _ => format!("{}_{}", ["_input", "_state", "_output", "_bad"][self.t.below(4) as usize], self.t.below(3)),
+                };
+                self.names_used.push(name.clone());
+                return Some(name);
+            }
             let base = NAMES[self.t.below(NAMES.len() as u32) as usize];
             self.name_count += 1;
-            Some(format!("{}{}", base, self.name_count))
+            let name = if self.t.chance(40) { base.to_string() } else { format!("{}{}", base, self.name_count) };
+            self.names_used.push(name.clone());
+            Some(name)
         } else {
             None
         }
